@@ -15,7 +15,7 @@ func init() {
 	register(&Rule{
 		ID:    "C21",
 		Title: "Transaction fees never exceed what the sender authorised",
-		Pkgs:  []string{"process/economics"},
+		Pkgs:  []string{"process/economics", "core"},
 		Explain: "Decides two structural conditions. (S1) no unsigned subtraction in the fee/gas computations of package process/economics (ComputeTxFee, ComputeTxFeeBasedOnGasUsed, " +
 			"ComputeGasUsedAndFeeBasedOnRefundValue, SplitTxGasInCategories, isTooMuchGasProvided and every other function of economicsData) can wrap around: each `a - b` on unsigned operands is dominated by a " +
 			"comparison establishing b ≤ a on the same expressions (or goes through a checked helper). A wrapped difference turns 'gas remaining' into a huge number and a reported gas used / fee above the limit. " +
@@ -27,6 +27,7 @@ func init() {
 }
 
 func runC21(c *core.Ctx) {
+	c21SafeMulStaysBig(c)
 	const pkg = "process/economics"
 	n := 0
 	for _, fn := range c.P.FuncsOfPkg(pkg) {
@@ -273,4 +274,33 @@ func c21FeeParts(c *core.Ctx) {
 			"the processing fee is the product of the (truncated) processing price and the gas",
 			why+": the refund path converts a fee back into gas by dividing by GasPriceForProcessing, so any other rounding makes the gas derived from a refund exceed the gas limit")
 	}
+}
+
+// c21SafeMulStaysBig: core.SafeMul is the multiplication behind every fee formula; it exists
+// because price x gas does not fit a machine word. It multiplies in big arithmetic only: no machine
+// product of its two parameters, whatever fast path guards it (a bound on leading zeros that is
+// off by one wraps modulo 2^64 exactly for the large products the helper is for).
+func c21SafeMulStaysBig(c *core.Ctx) {
+	fn := anchorF(c, "core", "SafeMul")
+	if fn == nil {
+		return
+	}
+	bad := ""
+	core.Instrs(fn, func(in ssa.Instruction) {
+		bo, ok := in.(*ssa.BinOp)
+		if !ok || bo.Op != token.MUL {
+			return
+		}
+		if bt, isB := bo.Type().Underlying().(*types.Basic); !isB || bt.Info()&types.IsInteger == 0 {
+			return
+		}
+		_, cx := bo.X.(*ssa.Const)
+		_, cy := bo.Y.(*ssa.Const)
+		if !cx && !cy {
+			bad = core.ExprKey(bo) + " at " + c.P.Pos(bo.Pos())
+		}
+	})
+	c.Check(bad == "", "C21/fee-products-in-big-arithmetic", "core.SafeMul/no-machine-product", fn.Pos(),
+		"SafeMul has no machine-integer product of two runtime values",
+		"core.SafeMul computes the machine product "+bad+": for price x gas above 2^64 the fee wraps to a small number, fees stop growing with the gas used and the refund path can report a negative fee")
 }
